@@ -16,7 +16,9 @@ def cluster_tables(rng=None, variant=0):
         pk = [(), ("b",)][variant % 2]
         return [Table("a", fields=("f", "g"), where="all", group=("a",), res=2, partition_by=pk),
                 Table("b", fields=("f",), where="by", group=("b",), res=1, partition_by=())]
-    pk = [("a",), ("b",), ("a", "b"), ()][variant % 4]
+    # partition keys are also declared out of alphabetical order: leader and
+    # follower must agree on the order in which they hash them
+    pk = [("a",), ("b",), ("b", "a"), ()][variant % 4]
     return [Table("a", fields=("f", "g"), where="all", group=("a", "b"), res=2, partition_by=pk),
             Table("b", fields=("f",), where="by", group=("b",), res=1, partition_by=())]
 
@@ -258,7 +260,7 @@ def cluster_check(args, pid, judge_queries, topos, quick_n, thorough_n, text, no
             for gi in range(max(1, n // per)):
                 topo = rng.choice(topos)
                 L, P, R = topo
-                variant = (4 + gi % 2) if gi % 3 == 2 else rng.randint(0, 3)
+                variant = (4 + gi % 2) if gi % 3 == 2 else (2 if gi == 0 else rng.randint(0, 3))
                 tabs = cluster_tables(variant=variant)
                 menus = []
                 pid_from = 1
